@@ -148,7 +148,12 @@ func VerifC21_Snapshot() {
 	}
 
 	dup, ended := false, false
-	verifC21step(g, s, r, 3, &dup, &ended) // any operation (up to 3 fresh addresses)
+	// two arbitrary operations while the iteration still holds the slices (e.g.
+	// a removal followed by an addition into the same bin)
+	verifC21step(g, s, r, 3, &dup, &ended)
+	if !ended {
+		verifC21step(g, s, r, 2, &dup, &ended)
+	}
 
 	same := true
 	for b := 0; b < maxBins; b++ {
